@@ -13,7 +13,7 @@ ASSUMPTIONS = ["threshold experiments use unit 1024 (penalties are multiples of 
                "2/1024 may not)", "move-by-move conformance with spec/LocalSearch.tla is in the un-jitted twin stage"]
 BIO = ["BioConsert", "BioCo", "Bio[Borda]", "Bio[Copeland,KwikSort]", "Bio[PickAPerm]", "Bio[PickAPerm,Copeland]",
        "Bio[Borda,Copeland,KwikSort]", "Bio[Borda,BordaBid]"]
-SCHEMES = [ac.P_UNI5, ac.P_IND1, ac.P_PSE5, ac.P_UNI1, ac.P_EXT, ac.P_IND5]
+SCHEMES = [ac.P_UNI5, ac.P_IND1, ac.P_PSE5, ac.P_UNI1, ac.P_EXT, ac.P_IND5, ac.QUARTER]
 # unit 1024: B[1] = 1024 (=1.0), ties cost 1.0 +- 1/1024, 2/1024
 FINE = [([0, 1024, 1025, 0, 1024, 1024], [1024, 1024, 0, 1024, 1024, 0], 1024),
         ([0, 1024, 1022, 0, 1024, 1023], [1023, 1023, 0, 1024, 1024, 0], 1024),
@@ -57,6 +57,15 @@ def stages(tier, rng, only=None):
         [ac.random_dataset(rng, 6, 6, nmin=3) for _ in range(n_rand // 2)], BIO, ac.TINY), _nt))
     out.append(ac.stage("cycles", PID, lambda: ac.cases(
         [ac.cyclic_dataset(rng, 3, 6, incomplete=k % 2 == 1) for k in range(n_rand // 2)], BIO, SCHEMES), _nt))
+    out.append(ac.stage("mixed_magnitudes", PID, lambda: ac.cases(
+        [ac.random_dataset(rng, 6, 6, nmin=3) for _ in range(n_rand // 2)]
+        + [ac.cyclic_dataset(rng, 3, 6, incomplete=k % 2 == 1) for k in range(n_rand // 2)], BIO, ac.MIXEDMAG), _nt))
+    out.append(ac.stage("reuse_after_mutation", PID, lambda: ac.reuse_mutate_cases(
+        grids.datasets(3, 2)[::3] + [ac.random_dataset(rng, 6, 5, nmin=3) for _ in range(n_rand // 2)], BIO, SCHEMES,
+        rng, flags=(0,)), _nt))
+    out.append(ac.stage("reuse_other_dataset", PID, lambda: ac.reuse_other_cases(
+        grids.datasets(3, 2)[::5] + [ac.random_dataset(rng, 6, 5, nmin=3) for _ in range(n_rand // 2)], BIO, SCHEMES,
+        rng, flags=(0,)), _nt))
     out.append(ac.stage("threshold", PID, lambda: ac.cases([ac.random_dataset(rng, 5, 4, nmin=3) for _ in range(n_rand)],
                                                            BIO, FINE), _nt))
     if tier == "thorough":
